@@ -2813,6 +2813,11 @@ func (e *Bounds) fieldAt(f *types.Var, base ssa.Value, at ssa.Instruction, fr *f
 			}
 			a = e.applyFact(x.fact, x.load, fr, k, a)
 		}
+		// the stored SSA value is immutable: what dominates `at` and speaks about it
+		// (a test of the local the field was stored from) also bounds the field there
+		if !a.Bot && st.Block() != at.Block() {
+			a = e.refine(st.Val, at, fr, k, a)
+		}
 		r = r.Join(a)
 	}
 	return r, complete
